@@ -1713,11 +1713,22 @@ class Interp:
         sv.entry = LocalsView(ctx, entry_heap, entry_locals)
         sv.iter = iterable
         try:
+            # a contract that declares a loop-carried local the function does not have (any more) speaks about other code
+            declared = spec.vars(sv) if callable(spec.vars) else spec.vars
+            have = function_names(fr.fi.node) if fr.fi is not None else None
+            if have is not None:
+                for name in declared:
+                    if not name.startswith('_') and name not in have:
+                        raise AttributeError('spec view: no local/arg named %s (declared by the loop contract)' % name)
             inv0 = spec.invariant(sv)
         except AttributeError as e:
             if 'no local/arg named' not in str(e):
                 raise
-            # the loop contract speaks about a local this code does not have (the code changed): it cannot be applied
+            # the loop contract speaks about a local this code does not have (the code changed): it cannot be applied.
+            # If the contract maintains ghost witnesses itself (ghost_step), following the loop without it would leave
+            # them stale and make later clauses fail for no semantic reason: that case stays undecided.
+            if getattr(spec, 'ghost_step', None) is not None:
+                raise Unsupported('loop contract of %s is not applicable to this code (%s)' % (lid, e))
             ctx.trust('loop contract of %s not applicable (%s)' % (lid, e))
             if ghost_i is not None:
                 fr.locals.pop(ghost_i, None)
@@ -1865,6 +1876,26 @@ class ContractView:
     def draw(self, ty, hint):
         """A fresh value of the given type (existential witness of an assumed contract)."""
         return to_spec(self.ctx, self.ctx.heap, self.ctx.fresh(ty, '%s.%s' % (self.what, hint) if self.what else hint))
+
+
+def function_names(fnode):
+    """every name the function binds: parameters and assignment / loop / with / except targets"""
+    names = set()
+    for a in list(fnode.args.args) + list(fnode.args.kwonlyargs) + list(getattr(fnode.args, 'posonlyargs', [])):
+        names.add(a.arg)
+    for a in (fnode.args.vararg, fnode.args.kwarg):
+        if a is not None:
+            names.add(a.arg)
+    for n in ast.walk(fnode):
+        if isinstance(n, ast.Name) and isinstance(n.ctx, (ast.Store, ast.Del)):
+            names.add(n.id)
+        elif isinstance(n, ast.ExceptHandler) and n.name:
+            names.add(n.name)
+        elif isinstance(n, (ast.FunctionDef, ast.AsyncFunctionDef, ast.ClassDef)) and n is not fnode:
+            names.add(n.name)
+        elif isinstance(n, ast.alias):
+            names.add((n.asname or n.name).split('.')[0])
+    return names
 
 
 def mangle(attr, fr):
